@@ -6,7 +6,8 @@ _COMMON_TRUST = [
     'builtin/library contracts of DESIGN.md 2.5-2.6 (assumed; cross-checked against CPython by pyvc/crosscheck.py, bounded)',
 ]
 
-_INT_FUNCS = ['field:Field._compile_impl', 'field:Int._compile', 'field:Int._unpack_fixed_and_primitive_size',
+_INT_FUNCS = ['structural_fields:Optional._compile', 'structural_fields:Sequence._compile',   # the class-default byte order reaches wrapped Ints
+              'field:Field._compile_impl', 'field:Int._compile', 'field:Int._unpack_fixed_and_primitive_size',
               'field:Int._unpack_fixed_size', 'field:Int._pack_fixed_and_primitive_size', 'field:Int._pack_fixed_size']
 
 _DATA_FUNCS = ['field:Data._unpack_fixed_size', 'field:Data._unpack_variable_size_field',
@@ -83,7 +84,9 @@ PROPERTIES = {
         functions=['fragments:FragmentsOfRegexps.insert', 'fragments:FragmentsOfRegexps.append', 'fragments:FragmentsOfRegexps.assemble_regexp',
                    'C18#field:Int._pack_fixed_and_primitive_size', 'C18#field:Int._pack_fixed_size', 'C18#field:Data.pack',
                    'field:Int.pack_regexp', 'field:Data.pack_regexp',
-                   'packet:Packet.as_regular_expression_impl', 'packet:Packet.as_regular_expression'],
+                   'packet:Packet.as_regular_expression_impl', 'packet:Packet.as_regular_expression',
+                   # Bits.pack_regexp (bounded) lays the bits out MSB first over one big-endian integer: the layout _compile establishes
+                   'field:Bits._compile'],
         lemmas=['C18.int_pieces', 'C18.data_pieces', 'C18.not_consumed_delimiter', 'C18.constrained_any'],
         native_probe='probe_c18',
         trusted_base=_COMMON_TRUST + [
@@ -192,7 +195,9 @@ PROPERTIES = {
         level='proof',
         functions=['descriptor:Auto._compile', 'descriptor:Auto.__get__', 'descriptor:Auto.__set__',
                    'descriptor:Auto.__delete__', 'descriptor:Auto.sync_before_pack',
-                   'descriptor:AutoLength.calculate_length', 'packet:Packet.__init__'],
+                   'descriptor:AutoLength.calculate_length', 'packet:Packet.__init__',
+                   # the naming scheme that links a described field to its hidden slot and tells the descriptor both names
+                   'field:Field._describe_yourself'],
         lemmas=['C17.visible_depends_only_on_flag_and_hidden'],
         trusted_base=_COMMON_TRUST + ["python's descriptor protocol dispatches attribute get/set/delete of a described field to Auto.__get__/__set__/__delete__ (role:DESC.__set__)"],
         assumptions=['the computing function (Auto.func) is pure and does not read the hidden slot',
@@ -216,6 +221,7 @@ PROPERTIES = {
                    'structural_fields:Optional.unpack', 'structural_fields:Optional.pack',
                    'field:Ref._unpack_referencing_a_packet', 'field:Ref._pack_referencing_a_packet',
                    'field:Ref._unpack_using_callable', 'field:Ref._pack_with_callable',
+                   'structural_fields:Optional._compile', 'structural_fields:Sequence._compile',
                    'structural_fields:normalize_raw_condition_into_a_callable',
                    'structural_fields:normalize_count_condition_into_a_callable'],
         trusted_base=_COMMON_TRUST + ['abstract field contract role:FIELD.unpack / role:FIELD.pack for the element field (writes only the slots it owns)',
@@ -263,7 +269,10 @@ PROPERTIES = {
                    'structural_fields:Sequence.unpack', 'structural_fields:Sequence.pack',
                    'fragments:Fragments.insert', 'fragments:Fragments.tobytes',
                    # the reference point of relative positions: every field runs with innermost-pkt-pos = start of ITS packet
-                   'packet:Packet.unpack_impl', 'packet:Packet.pack_impl'],
+                   'packet:Packet.unpack_impl', 'packet:Packet.pack_impl',
+                   # how .at() / .shift() / .aligned() / the class-wide align option become Move pseudo-fields of the table
+                   'field:Field.at', 'field:Field.shift', 'field:Field.aligned', 'structural_fields:Move.__init__',
+                   'field:Field._describe_yourself', 'structural_fields:Sequence._compile'],
         lemmas=['C10.move_target_unique'],
         trusted_base=_COMMON_TRUST,
         assumptions=['move targets are integers; alignment values are > 0 (precondition, outside the statement otherwise)',
